@@ -23,6 +23,8 @@ package standard
 //@   ensures result1 == nil ==> in(s.blockRootToSlot, root) && s.blockRootToSlot[root] == result0
 //@   ensures !in(old(s.blockRootToSlot), root) && calls(BeaconBlockHeader) == 0 ==> result1 != nil
 //@   ensures in(old(s.blockRootToSlot), root) ==> result1 == nil
+//@   // a failed fetch is reported as an error and leaves nothing behind: no entry for the root is made up
+//@   ensures result1 != nil ==> !in(s.blockRootToSlot, root)
 //@   ensures forall r phase0.Root :: r != root ==> (in(s.blockRootToSlot, r) <==> in(old(s.blockRootToSlot), r)) && s.blockRootToSlot[r] == old(s.blockRootToSlot[r])
 //@   modifies contents(s.blockRootToSlot)
 //@
